@@ -264,8 +264,6 @@ pub proof fn theorem_ranges_round_trip(s: Seq<Ent<()>>, tail: Seq<u8>)
 // ---------------------------------------------------------------------------------------------
 // IdSet
 // ---------------------------------------------------------------------------------------------
-pub type IdItem = (ClientID, Seq<Ent<()>>);
-
 pub open spec fn enc_idset_item(x: IdItem) -> Seq<u8> {
     enc_uint(x.0.0 as nat) + enc_ranges(x.1)
 }
@@ -517,12 +515,12 @@ pub open spec fn idset_items_dom(items: Seq<IdItem>) -> bool {
     &&& forall|i: int| 0 <= i < items.len() ==> client_id_53bit((#[trigger] items[i]).0.0) && ents_ordered(items[i].1) && items[i].1.len() <= u32::MAX
 }
 
-/// C09 for IdSet (v1), in terms of the written item sequence: decoding rebuilds the map of the items, whatever follows
+/// C09 for IdSet (v1), in terms of the written item sequence: the decoder reads exactly the written sections, whatever follows
 pub proof fn theorem_idset_items_round_trip(items: Seq<IdItem>, tail: Seq<u8>)
     requires
         idset_items_dom(items),
     ensures
-        dec_idset(enc_idset_items(items) + tail) == Some((map_of(items), enc_idset_items(items).len())),
+        dec_idset(enc_idset_items(items) + tail) == Some((items, enc_idset_items(items).len())),
 {
     let e1 = enc_uint(items.len());
     let body = enc_list(idset_enc_item(), items);
@@ -542,14 +540,16 @@ pub open spec fn idset_dom(m: Map<ClientID, Seq<Ent<()>>>) -> bool {
     &&& forall|c: ClientID| #[trigger] m.contains_key(c) ==> client_id_53bit(c.0) && ents_ordered(m[c]) && m[c].len() <= u32::MAX
 }
 
-/// C09 for IdSet (v1), end to end: whatever order `IdSet::encode` enumerated the set `m` in, decoding what it wrote
-/// (`bytes`, followed by any tail) returns exactly `m` and stops in front of the tail.  `m` need not be canonical.
-pub proof fn theorem_idset_round_trip(m: Map<ClientID, Seq<Ent<()>>>, bytes: Seq<u8>, tail: Seq<u8>)
+/// C09 for IdSet (v1) on the WIRE: whatever order `IdSet::encode` enumerated the set `m` in, the decoder reads back
+/// exactly the written sections -- an enumeration of `m` -- and stops in front of the tail.  `m` need not be canonical.
+pub proof fn theorem_idset_wire_round_trip(m: Map<ClientID, Seq<Ent<()>>>, bytes: Seq<u8>, tail: Seq<u8>)
     requires
         idset_dom(m),
         idset_written(m, Seq::<u8>::empty(), bytes),
     ensures
-        dec_idset(bytes + tail) == Some((m, bytes.len())),
+        dec_idset(bytes + tail) is Some,
+        dec_idset(bytes + tail)->Some_0.1 == bytes.len(),
+        enumerates(dec_idset(bytes + tail)->Some_0.0, m),
 {
     let items = choose|items: Seq<IdItem>| #[trigger] enumerates(items, m) && bytes == Seq::<u8>::empty() + enc_idset_items(items);
     assert(Seq::<u8>::empty() + enc_idset_items(items) =~= enc_idset_items(items));
@@ -557,73 +557,330 @@ pub proof fn theorem_idset_round_trip(m: Map<ClientID, Seq<Ent<()>>>, bytes: Seq
         assert(m.contains_key(items[i].0) && m[items[i].0] == items[i].1);
     }
     theorem_idset_items_round_trip(items, tail);
-    lemma_map_of_enumerates(items, m);
+}
+
+/// a canonical non-empty sequence covers a point, and a covering sequence is non-empty (text of unit ids_lift)
+pub proof fn lemma_nonempty_point<T: Merge>(s: Seq<Ent<T>>)
+    requires canon(s),
+    ensures s.len() > 0 <==> exists|k: int| covers(s, k),
+{
+    if s.len() > 0 {
+        assert(inr(s[0].0, s[0].0.start as int));
+        assert(covers(s, s[0].0.start as int));
+    }
+    if exists|k: int| covers(s, k) {
+        let k = choose|k: int| covers(s, k);
+        let i = idx_of(s, k);
+        assert(inr(s[i].0, k));
+    }
+}
+
+/// the representation invariant makes the stored map a function of the point set: two well-formed sets with the same
+/// points are EQUAL (what makes `==`, `is_empty()` and the encoding agree with the mathematical set)
+pub proof fn lemma_wf_map_unique(m1: Map<ClientID, Seq<Ent<()>>>, m2: Map<ClientID, Seq<Ent<()>>>)
+    requires
+        wf_map(m1),
+        wf_map(m2),
+        forall|c: ClientID, k: int| #![trigger has_pt(m1, c, k)] #![trigger has_pt(m2, c, k)] has_pt(m1, c, k) <==> has_pt(m2, c, k),
+    ensures
+        m1 == m2,
+{
+    assert forall|c: ClientID| m1.contains_key(c) <==> m2.contains_key(c) by {
+        if m1.contains_key(c) {
+            lemma_nonempty_point(m1[c]);
+            let k = choose|k: int| covers(m1[c], k);
+            assert(has_pt(m1, c, k));
+            assert(has_pt(m2, c, k));
+        }
+        if m2.contains_key(c) {
+            lemma_nonempty_point(m2[c]);
+            let k = choose|k: int| covers(m2[c], k);
+            assert(has_pt(m2, c, k));
+            assert(has_pt(m1, c, k));
+        }
+    }
+    assert forall|c: ClientID| m1.contains_key(c) implies m1[c] == m2[c] by {
+        assert forall|k: int| covers(m1[c], k) <==> covers(m2[c], k) by {
+            assert(has_pt(m1, c, k) <==> has_pt(m2, c, k));
+        }
+        lemma_canon_unique_unit(m1[c], m2[c]);
+    }
+    assert(m1 =~= m2);
+}
+
+/// an enumeration of a well-formed set describes it
+pub proof fn lemma_enumerates_idset_of(items: Seq<IdItem>, m: Map<ClientID, Seq<Ent<()>>>)
+    requires
+        enumerates(items, m),
+        wf_map(m),
+    ensures
+        idset_of(items, m),
+{
+    assert forall|c: ClientID, k: int| #![trigger has_pt(m, c, k)] has_pt(m, c, k) <==> items_pt(items, items.len() as int, c, k) by {
+        if has_pt(m, c, k) {
+            let i = choose|i: int| 0 <= i < items.len() && (#[trigger] items[i]).0 == c;
+            assert(m[items[i].0] == items[i].1);
+            assert(0 <= i < items.len() && i < items.len() && items[i].0 == c && covers(items[i].1, k));
+        }
+        if items_pt(items, items.len() as int, c, k) {
+            let i = choose|i: int| 0 <= i < items.len() && i < items.len() && (#[trigger] items[i]).0 == c && covers(items[i].1, k);
+            assert(m.contains_key(items[i].0) && m[items[i].0] == items[i].1);
+        }
+    }
+}
+
+/// C09 for IdSet (v1), end to end, on VALUES: for a set `m` that satisfies the representation invariant, whatever order
+/// `IdSet::encode` enumerated it in, `IdSet::decode` applied to what was written (`bytes`, followed by any tail) succeeds, stops
+/// in front of the tail, and EVERY value `m2` its contract admits (`idset_of(sections, m2)`) is `m`.
+pub proof fn theorem_idset_round_trip(m: Map<ClientID, Seq<Ent<()>>>, bytes: Seq<u8>, tail: Seq<u8>)
+    requires
+        idset_dom(m),
+        wf_map(m),
+        idset_written(m, Seq::<u8>::empty(), bytes),
+    ensures
+        dec_idset(bytes + tail) is Some,
+        dec_idset(bytes + tail)->Some_0.1 == bytes.len(),
+        forall|m2: Map<ClientID, Seq<Ent<()>>>| #[trigger] idset_of(dec_idset(bytes + tail)->Some_0.0, m2) ==> m2 == m,
+{
+    theorem_idset_wire_round_trip(m, bytes, tail);
+    let items = dec_idset(bytes + tail)->Some_0.0;
+    lemma_enumerates_idset_of(items, m);
+    assert forall|m2: Map<ClientID, Seq<Ent<()>>>| #[trigger] idset_of(items, m2) implies m2 == m by {
+        assert forall|c: ClientID, k: int| #![trigger has_pt(m2, c, k)] #![trigger has_pt(m, c, k)] has_pt(m2, c, k) <==> has_pt(m, c, k) by {
+            assert(has_pt(m2, c, k) <==> items_pt(items, items.len() as int, c, k));
+            assert(has_pt(m, c, k) <==> items_pt(items, items.len() as int, c, k));
+        }
+        lemma_wf_map_unique(m2, m);
+    }
+}
+
+/// C09 for IdRanges<()> (v1), on VALUES: for a CANONICAL list `s`, every value `r` the contract of `IdRanges::decode` admits
+/// for the bytes `IdRanges::encode` wrote (`canon_of(raw, r)`, raw = the ranges read back = `s`) is `s`.
+pub proof fn theorem_ranges_value_round_trip(s: Seq<Ent<()>>, tail: Seq<u8>)
+    requires
+        canon(s),
+        s.len() <= u32::MAX,
+    ensures
+        dec_ranges(enc_ranges(s) + tail) == Some((s, enc_ranges(s).len())),
+        forall|r: Seq<Ent<()>>| #[trigger] canon_of(s, r) ==> r == s,
+{
+    lemma_canon_ordered(s);
+    theorem_ranges_round_trip(s, tail);
+    assert forall|r: Seq<Ent<()>>| #[trigger] canon_of(s, r) implies r == s by {
+        assert forall|c: int| covers(r, c) <==> covers(s, c) by {}
+        lemma_canon_unique_unit(r, s);
+    }
 }
 
 // ---------------------------------------------------------------------------------------------
-// OBSERVATIONS for C16 / C09 (proved facts, not obligations of C10): what the decoders do NOT guarantee.
-// `IdRanges::decode` builds its value with `IdRanges::from_raw` ("assumes sorted/non-overlapping") and `IdSet::decode` with a
-// plain `BTreeMap::insert`.  The round-trip theorems above hold for every list of ranges with start <= end, so each of
-// the following values IS the result of decoding some input (its own encoding) -- and violates the canonical form
-// (`canon`: sorted, disjoint, non-empty, coalesced) / the "no empty per-client entry" invariant the IdRanges / IdSet
-// algebra (units ids*, C16) requires of its arguments.  Decoded values "can be encoded again" (enc_ok), but an
-// operation such as `insert`, `merge`, `contains` on a decoded delete set is outside the verified domain of C16.
+// DECODED VALUES ARE CANONICAL (was: observation_decode_not_canonical / observation_decode_empty_entry, proved
+// counter-examples against the old decoders; finding F-DC-9, repaired in /repo).  The decoders' postconditions
+// (`canon_of` / `idset_of`) DETERMINE the value, and the value is in the domain of the whole IdRanges / IdSet algebra
+// (units ids*, C16) and of BOTH encoders.
 // ---------------------------------------------------------------------------------------------
-pub proof fn observation_decode_not_canonical()
+/// the v2 delete-set register (EncoderV2::ds_curr_val) run over the writes `IdRanges::encode` performs for the list `s`
+/// (per range: write_ds_clock(start), write_ds_len(end - start)), starting with register value `cur`:
+/// `write_ds_clock(clock)` needs `clock >= ds_curr_val` and sets it to `clock`; `write_ds_len(len)` needs `len != 0` and
+/// `ds_curr_val + len <= u32::MAX` and adds `len` -- the preconditions PROVED for the real bodies in unit lib0_v2
+/// (labels v2_write_ds_clock / v2_write_ds_len).
+pub open spec fn ds_writes_ok(s: Seq<Ent<()>>, cur: int) -> bool
+    decreases s.len(),
+{
+    if s.len() == 0 {
+        true
+    } else {
+        let r = s[0].0;
+        &&& r.start >= cur                                  // write_ds_clock(r.start):      clock >= ds_curr_val
+        &&& r.end - r.start != 0 && r.end - r.start >= 1    // write_ds_len(r.end - r.start): len != 0 (no underflow: start <= end)
+        &&& r.start + (r.end - r.start) <= u32::MAX         //                               ds_curr_val + len <= u32::MAX
+        &&& ds_writes_ok(s.skip(1), r.end as int)
+    }
+}
+
+/// "a decoded value can be encoded again", v2: for a canonical list the clock arguments are non-decreasing along the list
+/// and every length argument is >= 1, i.e. every write is within the proved domain of EncoderV2 (after `reset_ds_cur_val`,
+/// cur = 0; `IdSet::encode` resets before every client)
+pub proof fn lemma_canon_ds_ok(s: Seq<Ent<()>>, cur: int)
+    requires
+        canon(s),
+        s.len() > 0 ==> cur <= s[0].0.start,
+    ensures
+        ds_writes_ok(s, cur),
+    decreases s.len(),
+{
+    if s.len() > 0 {
+        let t = s.skip(1);
+        assert(s[0].0.start < s[0].0.end);
+        assert forall|i: int| 0 <= i < t.len() implies (#[trigger] t[i]).0.start < t[i].0.end by {
+            assert(t[i] == s[i + 1]);
+        }
+        assert forall|i: int, j: int| 0 <= i < j < t.len() implies (#[trigger] t[i]).0.end <= (#[trigger] t[j]).0.start by {
+            assert(t[i] == s[i + 1] && t[j] == s[j + 1]);
+        }
+        assert forall|i: int, j: int| 0 <= i && j == i + 1 && j < t.len() && (#[trigger] t[i]).0.end == (#[trigger] t[j]).0.start implies !t[i].1.eq_spec(&t[j].1) by {
+            assert(t[i] == s[i + 1] && t[j] == s[j + 1]);
+        }
+        if t.len() > 0 {
+            assert(t[0] == s[1]);
+            assert(s[0].0.end <= s[1].0.start);
+        }
+        lemma_canon_ds_ok(t, s[0].0.end as int);
+    }
+}
+
+/// and conversely the old counter-examples are OUTSIDE that domain (why the v2 encoder panicked on decoded values before the
+/// repair): an empty range violates `len != 0`, an unordered / overlapping pair violates `clock >= ds_curr_val`
+pub proof fn lemma_non_canon_ds_not_ok()
+    ensures
+        !ds_writes_ok(seq![(3u32..3u32, ())], 0),
+        !ds_writes_ok(seq![(5u32..6u32, ()), (0u32..3u32, ())], 0),
+        !ds_writes_ok(seq![(0u32..5u32, ()), (2u32..7u32, ())], 0),
+{
+    let s1 = seq![(3u32..3u32, ())];
+    assert(s1[0].0.end - s1[0].0.start == 0);
+    let s2 = seq![(5u32..6u32, ()), (0u32..3u32, ())];
+    assert(s2.skip(1)[0] == s2[1]);
+    assert(!ds_writes_ok(s2.skip(1), 6)) by {
+        assert(s2.skip(1)[0].0.start < 6);
+    }
+    let s3 = seq![(0u32..5u32, ()), (2u32..7u32, ())];
+    assert(s3.skip(1)[0] == s3[1]);
+    assert(!ds_writes_ok(s3.skip(1), 5)) by {
+        assert(s3.skip(1)[0].0.start < 5);
+    }
+}
+
+/// THEOREM (the opposite of the former observation_decode_not_canonical): whatever raw ranges come off the wire, every value
+/// the contract of `IdRanges<()>::decode` admits is canonical, unique, not longer than the raw list is irrelevant here (see
+/// the decoder), within the domain of the v1 encoder (start <= end) and of the v2 encoder (ds_writes_ok from register 0)
+pub proof fn theorem_decoded_ranges_canonical(raw: Seq<Ent<()>>, r: Seq<Ent<()>>, r2: Seq<Ent<()>>)
+    requires
+        canon_of(raw, r),
+        canon_of(raw, r2),
+    ensures
+        canon(r),
+        ents_ordered(r),
+        ds_writes_ok(r, 0),
+        r2 == r,
+{
+    lemma_canon_ordered(r);
+    lemma_canon_ds_ok(r, 0);
+    assert forall|c: int| covers(r2, c) <==> covers(r, c) by {
+        assert(covers(r2, c) <==> covers(raw, c));
+        assert(covers(r, c) <==> covers(raw, c));
+    }
+    lemma_canon_unique_unit(r2, r);
+}
+
+/// the four inputs of the former observation, now: the wire lists still decode (`dec_ranges` of their encoding is the raw
+/// list), and the VALUE is the canonical list -- sorted, merged, empty range dropped
+pub proof fn theorem_decode_canonicalises_examples()
     ensures
         ({
             // unsorted
             let s = seq![(5u32..6u32, ()), (0u32..3u32, ())];
-            !canon(s) && dec_ranges(enc_ranges(s)) == Some((s, enc_ranges(s).len()))
+            dec_ranges(enc_ranges(s)) == Some((s, enc_ranges(s).len()))
+                && forall|r: Seq<Ent<()>>| #[trigger] canon_of(s, r) ==> r == seq![(0u32..3u32, ()), (5u32..6u32, ())]
         }),
         ({
             // an empty range
             let s = seq![(3u32..3u32, ())];
-            !canon(s) && dec_ranges(enc_ranges(s)) == Some((s, enc_ranges(s).len()))
+            dec_ranges(enc_ranges(s)) == Some((s, enc_ranges(s).len()))
+                && forall|r: Seq<Ent<()>>| #[trigger] canon_of(s, r) ==> r == Seq::<Ent<()>>::empty()
         }),
         ({
             // overlapping
             let s = seq![(0u32..5u32, ()), (2u32..7u32, ())];
-            !canon(s) && dec_ranges(enc_ranges(s)) == Some((s, enc_ranges(s).len()))
+            dec_ranges(enc_ranges(s)) == Some((s, enc_ranges(s).len()))
+                && forall|r: Seq<Ent<()>>| #[trigger] canon_of(s, r) ==> r == seq![(0u32..7u32, ())]
         }),
         ({
-            // adjacent, not coalesced
+            // adjacent
             let s = seq![(0u32..2u32, ()), (2u32..4u32, ())];
-            !canon(s) && dec_ranges(enc_ranges(s)) == Some((s, enc_ranges(s).len()))
+            dec_ranges(enc_ranges(s)) == Some((s, enc_ranges(s).len()))
+                && forall|r: Seq<Ent<()>>| #[trigger] canon_of(s, r) ==> r == seq![(0u32..4u32, ())]
         }),
 {
     let e = Seq::<u8>::empty();
+    axiom_unit_eq();
     let s1 = seq![(5u32..6u32, ()), (0u32..3u32, ())];
+    let c1 = seq![(0u32..3u32, ()), (5u32..6u32, ())];
     theorem_ranges_round_trip(s1, e);
     assert(enc_ranges(s1) + e =~= enc_ranges(s1));
-    assert(s1[0].0.end > s1[1].0.start);
+    lemma_example_canon(s1, c1);
     let s2 = seq![(3u32..3u32, ())];
+    let c2 = Seq::<Ent<()>>::empty();
     theorem_ranges_round_trip(s2, e);
     assert(enc_ranges(s2) + e =~= enc_ranges(s2));
-    assert(!(s2[0].0.start < s2[0].0.end));
+    lemma_example_canon(s2, c2);
     let s3 = seq![(0u32..5u32, ()), (2u32..7u32, ())];
+    let c3 = seq![(0u32..7u32, ())];
     theorem_ranges_round_trip(s3, e);
     assert(enc_ranges(s3) + e =~= enc_ranges(s3));
-    assert(s3[0].0.end > s3[1].0.start);
+    lemma_example_canon(s3, c3);
     let s4 = seq![(0u32..2u32, ()), (2u32..4u32, ())];
+    let c4 = seq![(0u32..4u32, ())];
     theorem_ranges_round_trip(s4, e);
     assert(enc_ranges(s4) + e =~= enc_ranges(s4));
-    axiom_unit_eq();
-    assert(s4[0].0.end == s4[1].0.start && s4[0].1.eq_spec(&s4[1].1));
+    lemma_example_canon(s4, c4);
 }
 
-/// a client with NO ranges (`01 07 00`: one client, id 7, zero ranges) decodes to a set with an empty per-client entry
-pub proof fn observation_decode_empty_entry()
+/// helper for the examples: `c` is canonical and covers the same clocks as the (at most two) raw ranges of `s`
+pub proof fn lemma_example_canon(s: Seq<Ent<()>>, c: Seq<Ent<()>>)
+    requires
+        s.len() <= 2,
+        c.len() <= 2,
+        forall|i: int| 0 <= i < c.len() ==> (#[trigger] c[i]).0.start < c[i].0.end,
+        c.len() == 2 ==> c[0].0.end < c[1].0.start,
+        forall|k: int| ((0 < s.len() && inr(s[0].0, k)) || (1 < s.len() && inr(s[1].0, k))) <==> ((0 < c.len() && inr(c[0].0, k)) || (1 < c.len() && inr(c[1].0, k))),
+    ensures
+        forall|r: Seq<Ent<()>>| #[trigger] canon_of(s, r) ==> r == c,
+{
+    axiom_unit_eq();
+    assert(canon(c));
+    assert forall|k: int| covers(c, k) <==> covers(s, k) by {
+        if covers(c, k) {
+            let i = idx_of(c, k);
+            assert(inr(c[i].0, k));
+            if 0 < s.len() && inr(s[0].0, k) { } else { assert(inr(s[1].0, k)); }
+        }
+        if covers(s, k) {
+            let i = idx_of(s, k);
+            assert(inr(s[i].0, k));
+            if 0 < c.len() && inr(c[0].0, k) { } else { assert(inr(c[1].0, k)); }
+        }
+    }
+    assert forall|r: Seq<Ent<()>>| #[trigger] canon_of(s, r) implies r == c by {
+        assert forall|k: int| covers(r, k) <==> covers(c, k) by {
+            assert(covers(r, k) <==> covers(s, k));
+        }
+        lemma_canon_unique_unit(r, c);
+    }
+}
+
+/// the former observation_decode_empty_entry, now its opposite: a client section WITHOUT ranges (`01 07 00`: one client,
+/// id 7, zero ranges) still decodes, and the value is the EMPTY set -- no empty per-client entry is stored
+pub proof fn theorem_decode_no_empty_entry()
     ensures
         ({
             let items = seq![(ClientID(7), Seq::<Ent<()>>::empty())];
-            dec_idset(enc_idset_items(items)) == Some((map_of(items), enc_idset_items(items).len()))
-                && map_of(items).contains_key(ClientID(7)) && map_of(items)[ClientID(7)].len() == 0
+            dec_idset(enc_idset_items(items)) == Some((items, enc_idset_items(items).len()))
+                && forall|m: Map<ClientID, Seq<Ent<()>>>| #[trigger] idset_of(items, m) ==> m == Map::<ClientID, Seq<Ent<()>>>::empty()
         }),
 {
     let items = seq![(ClientID(7), Seq::<Ent<()>>::empty())];
     theorem_idset_items_round_trip(items, Seq::<u8>::empty());
     assert(enc_idset_items(items) + Seq::<u8>::empty() =~= enc_idset_items(items));
-    assert(items.drop_last() =~= Seq::<IdItem>::empty());
-    assert(map_of(items) == map_of(items.drop_last()).insert(ClientID(7), Seq::<Ent<()>>::empty()));
+    let e = Map::<ClientID, Seq<Ent<()>>>::empty();
+    assert forall|m: Map<ClientID, Seq<Ent<()>>>| #[trigger] idset_of(items, m) implies m == e by {
+        assert forall|c: ClientID, k: int| #![trigger has_pt(m, c, k)] #![trigger has_pt(e, c, k)] has_pt(m, c, k) <==> has_pt(e, c, k) by {
+            assert(has_pt(m, c, k) <==> items_pt(items, items.len() as int, c, k));
+            if items_pt(items, items.len() as int, c, k) {
+                let i = choose|i: int| 0 <= i < items.len() && i < items.len() && (#[trigger] items[i]).0 == c && covers(items[i].1, k);
+                let j = idx_of(items[i].1, k);
+                assert(0 <= j < items[i].1.len());
+            }
+        }
+        lemma_wf_map_unique(m, e);
+    }
 }
